@@ -565,6 +565,20 @@ def special_sides(spec, impl):
         ref = {"radd": ["add", spec["e"], spec["x"]], "add": ["add", spec["x"], spec["e"]], "sub": ["sub", spec["x"], spec["e"]],
                "rsub": ["sub", spec["e"], spec["x"]], "rmul": ["mul", spec["e"], spec["x"]], "mul": ["mul", spec["x"], spec["e"]]}[op]
         return ("%s of the form %s and the plain expression %s" % (op, nc.tree_str(spec["x"], modes), nc.tree_str(spec["e"], modes)), degree(ref), ("tree", ref), ("nof", y))
+    if kind == "filter":  # filter_terms against an independent statement of its semantics: some condition matches ALL modes
+        nsym = sympy.Symbol("n", positive=True, integer=True)
+        X = nc.expand_to(impl.build(spec["x"]), ops)
+
+        def ref(p):
+            return {"eq": sympy.Integer(p[1]), "gt": p[1] + nsym, "lt": p[1] - nsym}[p[0]]
+
+        def pm(p, v):
+            return v == p[1] if p[0] == "eq" else (v > p[1] if p[0] == "gt" else v < p[1])
+        got = sorted(tuple(int(q) for q in k) for k, _ in X.filter_terms(tuple(tuple(ref(p) for p in c) for c in spec["conds"]), spec["keep"]).args[1])
+        want = sorted(k for k in (tuple(int(q) for q in kk) for kk, _ in X.args[1])
+                      if spec["keep"] == any(all(pm(p, v) for p, v in zip(c, k)) for c in spec["conds"]))
+        return ("custom", None if got == want else "filter_terms(keep=%s) of %s with conditions %s kept %s, expected %s"
+                % (spec["keep"], nc.tree_str(spec["x"], modes), spec["conds"], got, want))
     if kind == "powsym":  # single unmatched term to a symbolic power
         o = ops[spec["mode"]]
         c = sympy.Rational(spec["c"])
@@ -656,6 +670,10 @@ def special_cases(rng):
         case(modes, dict(sp="mixed", op=op, x=small(rng, modes), e=small(rng, modes)))
     # corpus (finding D25): plain expression with a vanishing fermionic term, a + f† N_f, added to a form from the left
     case(["B", "F"], dict(sp="mixed", op="radd", x=["mul", ["num", 0], ["op", 1, 0]], e=["add", ["op", 0, 0], ["mul", ["op", 1, 1], ["num", 1]]]))
+    # filter_terms with several conditions that differ in several modes (the fixed witness and a random one)
+    from harness import k_nof as _kn
+    for fc in [dict(_kn.FILTER_WITNESSES[rng.randrange(2)]), _kn.gen_filter_case(rng)]:
+        case(fc["modes"], dict(sp="filter", x=fc["x"], conds=fc["conds"], keep=fc["keep"]), [[0] * len(fc["modes"])])
     # symbolic powers, nilpotency, exception classes
     modes = [rng.choice("BL")]
     case(modes, dict(sp="powsym", mode=0, dag=rng.randint(0, 1), c=str(Fr(rng.choice([1, 2, 3]), rng.choice([1, 2])))), [[0]])
